@@ -999,9 +999,12 @@ class InterpolatedLayer(Mapping):
 
     def __getitem__(self, glyph_name: str) -> Glyph:
         try:
-            return self._cache.setdefault(
-                glyph_name, self._get(glyph_name) or self._interpolate(glyph_name)
-            )
+            # NOTE: a glyph without contours (e.g. a composite) is falsy, so test for
+            # None or the source glyph would be replaced by an interpolated copy
+            glyph = self._get(glyph_name)
+            if glyph is None:
+                glyph = self._interpolate(glyph_name)
+            return self._cache.setdefault(glyph_name, glyph)
         except InstantiatorError as e:
             raise KeyError(glyph_name) from e
 
